@@ -23,6 +23,7 @@ const (
 	FTies   = "ties"   // few distinct values, many duplicates
 	FRel    = "rel"    // values derived from their keys (upper(k), k, k+k, strlen(k), ...)
 	FJSON   = "json"   // every value is a JSON document (nested objects, arrays of objects)
+	FSep    = "sep"    // keys and values that begin or end with separator characters (: | , NUL): tuples that collide when joined
 )
 
 type Store struct {
@@ -109,6 +110,17 @@ func NewStore(r *rt.Rand, family string) *Store {
 				v = jsonVals[r.Intn(len(jsonVals))]
 			}
 			ps = append(ps, Pair{K: numKey(r), V: v})
+		}
+	case FSep:
+		// tuples (key, value) that are different but have equal joins under a one-character separator
+		sets := [][2][2]string{{{"a:", "b"}, {"a", ":b"}}, {{"b|", "a"}, {"b", "|a"}}, {{"c,", "d"}, {"c", ",d"}}, {{"e\x00", "f"}, {"e", "\x00f"}}, {{"g::", "h"}, {"g:", ":h"}}, {{"a:b", "c"}, {"a", "b:c"}}}
+		for i := 0; i < r.Range(1, 3); i++ {
+			set := sets[r.Intn(len(sets))]
+			ps = append(ps, Pair{K: set[0][0], V: set[0][1]}, Pair{K: set[1][0], V: set[1][1]})
+		}
+		extra := []string{"a", "b", ":", "x:", ":y", "k1", "k2", "k3", "|", ","}
+		for i := 0; i < r.Range(0, 6); i++ {
+			ps = append(ps, Pair{K: extra[r.Intn(len(extra))] + string(rune('0'+i)), V: extra[r.Intn(len(extra))]})
 		}
 	case FJSON:
 		docs := append([]string{`{"x":3,"y":"w","o":{"y":"q","z":[1,2]},"list":[{"a":1},{"a":2}]}`, `{"x":"7","y":"","o":{},"list":[]}`, `{"x":4,"y":"s","o":{"y":"deep","o":{"y":"deeper"}},"list":[1,2,3]}`}, jsonVals[:4]...)
